@@ -192,6 +192,9 @@ class WriterSide(Spec):
     def impl(self, case):
         return adapters.impl_write(*case)[0]
 
+    def model(self, case, resp):
+        return adapters.same_trace(resp, adapters.impl_write(*case)[0])
+
     def oracle(self, case, impl_res):
         return []
 
